@@ -2,6 +2,11 @@
 pub fn get_nearest_times_2(t: f64, factor: isize, points: &mut [(isize, isize); 2]) {
     let mut index = t.floor() as isize;
     let mut subindex = ((t - t.floor()) * (factor as f64)).floor() as isize;
+    // For a tiny negative t the fractional part rounds to 1.0.
+    if subindex >= factor {
+        subindex -= factor;
+        index += 1;
+    }
     points[0] = (index, subindex);
     subindex += 1;
     if subindex >= factor {
@@ -13,8 +18,13 @@ pub fn get_nearest_times_2(t: f64, factor: isize, points: &mut [(isize, isize); 
 
 /// Get the three nearest time points for time t in format (index, subindex).
 pub fn get_nearest_times_3(t: f64, factor: isize, points: &mut [(isize, isize); 3]) {
-    let start = t.floor() as isize;
-    let frac = ((t - t.floor()) * (factor as f64)).floor() as isize;
+    let mut start = t.floor() as isize;
+    let mut frac = ((t - t.floor()) * (factor as f64)).floor() as isize;
+    // For a tiny negative t the fractional part rounds to 1.0.
+    if frac >= factor {
+        frac -= factor;
+        start += 1;
+    }
     let mut index;
     let mut subindex;
     for (idx, sub) in (0..3).enumerate() {
@@ -33,8 +43,13 @@ pub fn get_nearest_times_3(t: f64, factor: isize, points: &mut [(isize, isize); 
 
 /// Get the four nearest time points for time t in format (index, subindex).
 pub fn get_nearest_times_4(t: f64, factor: isize, points: &mut [(isize, isize); 4]) {
-    let start = t.floor() as isize;
-    let frac = ((t - t.floor()) * (factor as f64)).floor() as isize;
+    let mut start = t.floor() as isize;
+    let mut frac = ((t - t.floor()) * (factor as f64)).floor() as isize;
+    // For a tiny negative t the fractional part rounds to 1.0.
+    if frac >= factor {
+        frac -= factor;
+        start += 1;
+    }
     let mut index;
     let mut subindex;
     for (idx, sub) in (-1..3).enumerate() {
